@@ -38,6 +38,7 @@ empty @is_you(%(ptypes)s) {
 '''
 
 ARITH_TEMPLATE = '''
+bool ident(bool t) { return t; }
 empty @is_you(%(ptypes)s) {
   %(pre)s
   write(%(E)s); write(' ');
@@ -69,6 +70,9 @@ def ops_family(seed, tier, ws):
     progs.append(('isbool_int', 'int a, int b', '', '(a is bool)', 'ii', POS_TEMPLATE))
     progs.append(('isbool_byte', 'byte a, int b', '', '(a is bool)', 'bi', POS_TEMPLATE))
     progs.append(('isbool_sum', 'int a, int b', '', '((a + b) is bool)', 'ii', POS_TEMPLATE))
+    progs.append(('isbool_value', 'int a, int b', 'bool p = a is bool; bool q = (a + b) is bool; bool[] arr = [a is bool, b is bool];',
+                  '(((p is int) + (q is int) * 2 + ((not p) is int) * 4 + ((p == (b is bool)) is int) * 8 + (arr[0] is int) * 16 + ((p is byte) is int) * 32) + (ident(a is bool) is int) * 64)',
+                  'ii', ARITH_TEMPLATE))
     for op in ['+', '-', '*', '/', '%']:
         progs.append(('ar_int_' + op, 'int a, int b', '', '(a %s b)' % op, 'ii', ARITH_TEMPLATE))
         progs.append(('ar_mix_' + op, 'byte a, int b', '', '(a %s b)' % op, 'bi', ARITH_TEMPLATE))
@@ -157,6 +161,12 @@ empty @is_you(string s) { int k = 9; byte[] keep = ['k', 'p']; write(s); write('
 empty @is_you(byte[] a) { int k = 4; write(a); write('|'); writeln(a); show(a, a); byte[] al = a; al[0] = 'Y'; write(a); write(k); }'''
     for n in [x for x in lens if x > 0]:
         items.append(runner.Item(('warr', n), arrprog, [str(65 + (i % 26)) for i in range(n)], s=80, meta={'family': 'write_byte_array'}))
+    zero = '''empty show(byte[] m, const byte[] c) { write('<'); write(m); write(c); writeln(m); write('>'); }
+empty @is_you(int n, byte[] a) { byte buf[n]; byte[] e = []; const byte[] ce = []; write('['); write(buf); write(e); write(ce); write(a); writeln(buf); show(buf, e); show(a, ce);
+  try { write(buf); write(a); !truth_is_defeat(n == 0); write('n'); } undo { write('u'); } write(']'); }'''
+    items.append(runner.Item(('wzero', 0), zero, ['0'], s=80, meta={'family': 'write_empty_arrays'}))
+    items.append(runner.Item(('wzero', 1), zero, ['0', '65'], s=80, meta={'family': 'write_empty_arrays'}))
+    items.append(runner.Item(('wzero', 2), 'empty @is_you(string s, const byte[] c) { write(s); write(c); writeln(s); write(""); write(s is byte[]); write(\'.\'); }', [''], s=80, meta={'family': 'write_empty_arrays'}))
     items.append(runner.Item(('wlit',), 'empty @is_you() { write("lit"); writeln("eral"); write([72, 105]); writeln(); const byte[] g = [\'o\', \'k\']; writeln(g); writeln(""); write(""); writeln(); }',
                              [], s=60, meta={'family': 'write_literals'}))
     return items
